@@ -578,4 +578,29 @@ func init() {
 		Variant{Name: "benign: admin allow-list test factored into a helper (the repaired form of seed C15-d)", Property: "C15", File: "seeded-benign/C15-helper-extraction.diff", Benign: true,
 			Patch: "seeded-benign/C15-helper-extraction.diff"},
 	)
+	// ---- a second batch of behaviour-preserving refactorings (style changes a reviewer would wave through)
+	addVariants(
+		Variant{Name: "benign: UnregisterShard guard as nested ifs", Property: "C08", File: shm, Benign: true,
+			Old: "\tif shardInfo, exists := sm.localShards[key]; exists && shardInfo.Created.Equal(expectedRegisteredAt) {\n", New: "\tshardInfo, exists := sm.localShards[key]\n\tif exists && shardInfo.Created.Equal(expectedRegisteredAt) {\n"},
+		Variant{Name: "benign: sendAck minimum with an explicit found flag", Property: "C01", File: pst, Benign: true,
+			Old: "\t\t\t\tmin := int64(0)\n\t\t\t\tfirst := true\n\t\t\t\tfor _, wm := range r.ackByTarget {\n\t\t\t\t\tif first || wm < min {\n\t\t\t\t\t\tmin = wm\n\t\t\t\t\t\tfirst = false\n\t\t\t\t\t}\n\t\t\t\t}\n", New: "\t\t\t\tmin := int64(0)\n\t\t\t\tfirst := true\n\t\t\t\tfor _, wm := range r.ackByTarget {\n\t\t\t\t\tif first {\n\t\t\t\t\t\tmin = wm\n\t\t\t\t\t\tfirst = false\n\t\t\t\t\t\tcontinue\n\t\t\t\t\t}\n\t\t\t\t\tif wm < min {\n\t\t\t\t\t\tmin = wm\n\t\t\t\t\t}\n\t\t\t\t}\n"},
+		Variant{Name: "benign: same refactoring seen by C03", Property: "C03", File: pst, Benign: true,
+			Old: "\t\t\t\tmin := int64(0)\n\t\t\t\tfirst := true\n\t\t\t\tfor _, wm := range r.ackByTarget {\n\t\t\t\t\tif first || wm < min {\n\t\t\t\t\t\tmin = wm\n\t\t\t\t\t\tfirst = false\n\t\t\t\t\t}\n\t\t\t\t}\n", New: "\t\t\t\tmin := int64(0)\n\t\t\t\tfirst := true\n\t\t\t\tfor _, wm := range r.ackByTarget {\n\t\t\t\t\tif first {\n\t\t\t\t\t\tmin = wm\n\t\t\t\t\t\tfirst = false\n\t\t\t\t\t\tcontinue\n\t\t\t\t\t}\n\t\t\t\t\tif wm < min {\n\t\t\t\t\t\tmin = wm\n\t\t\t\t\t}\n\t\t\t\t}\n"},
+		Variant{Name: "benign: handleStream mode dispatch as if-chain", Property: "C06", File: ast, Benign: true,
+			Old: "\tswitch shardCountConfig.Mode {\n\tcase config.ShardCountLCM:\n", New: "\tswitch mode := shardCountConfig.Mode; mode {\n\tcase config.ShardCountLCM:\n"},
+		Variant{Name: "benign: same edit seen by C07", Property: "C07", File: ast, Benign: true,
+			Old: "\tswitch shardCountConfig.Mode {\n\tcase config.ShardCountLCM:\n", New: "\tswitch mode := shardCountConfig.Mode; mode {\n\tcase config.ShardCountLCM:\n"},
+		Variant{Name: "benign: ACL namespace test with the prefix checks first", Property: "C16", File: acl, Benign: true,
+			Old: "\tif i.namespaceAccess != nil &&\n", New: "\tif nsAccess := i.namespaceAccess; nsAccess != nil &&\n"},
+		Variant{Name: "benign: GetClientTLSConfig name check with an early error", Property: "C19", File: tlsf, Benign: true,
+			Old: "\tif !clientConfig.SkipCAVerification {\n\t\tif clientConfig.CAServerName == \"\" {\n\t\t\treturn nil, errors.New(\"CAServerName must be set when SkipCAVerification is false\")\n\t\t}\n\t\ttlsConfig.ServerName = clientConfig.CAServerName\n\t}\n", New: "\tif !clientConfig.SkipCAVerification && clientConfig.CAServerName == \"\" {\n\t\treturn nil, errors.New(\"CAServerName must be set when SkipCAVerification is false\")\n\t}\n\tif !clientConfig.SkipCAVerification {\n\t\ttlsConfig.ServerName = clientConfig.CAServerName\n\t}\n"},
+		Variant{Name: "benign: OnConnectionListUpdate with a len check after the map is built", Property: "C11", File: mcc, Benign: true,
+			Old: "\tconnMap := make(map[string]func() (net.Conn, error), len(muxes))\n", New: "\tn := len(muxes)\n\tconnMap := make(map[string]func() (net.Conn, error), n)\n"},
+		Variant{Name: "benign: codec Unmarshal stores the classification in a local", Property: "C17", File: cod, Benign: true,
+			Old: "\tif common.IsInvalidUTF8Error(err) {\n", New: "\tif invalid := common.IsInvalidUTF8Error(err); invalid {\n"},
+		Variant{Name: "benign: recvAck keeps the aggregated count in a named local", Property: "C05", File: pst, Benign: true,
+			Old: "\t\t\t\ts.idRing.Discard(pendingDiscard)\n", New: "\t\t\t\tn := pendingDiscard\n\t\t\t\ts.idRing.Discard(n)\n"},
+		Variant{Name: "benign: same edit seen by C01", Property: "C01", File: pst, Benign: true,
+			Old: "\t\t\t\ts.idRing.Discard(pendingDiscard)\n", New: "\t\t\t\tn := pendingDiscard\n\t\t\t\ts.idRing.Discard(n)\n"},
+	)
 }
